@@ -1255,7 +1255,6 @@ func TestPropSCT(t *testing.T) {
 	})
 }
 
-
 // sourceMode picks how the bytes are handed to ReadCertChain as a pure function of the bytes:
 // about a third of the inputs go through a reader that only implements Read (files, pipes and
 // HTTP bodies look like that), in chunks of 1 / 7 / 4096 bytes, some returning data with io.EOF.
@@ -1271,5 +1270,5 @@ func sourceMode(b []byte) int {
 	if h < 0 {
 		h = -h
 	}
-	return []int{0, 0, gen.SourceBuffer, gen.SourceBuffer, 1, 2, 7, 512, 4096, 4097}[h%10]
+	return []int{0, gen.SourceSeekAdvanced, gen.SourceBuffer, gen.SourceBufio, 1, 2, 7, 512, 4096, 4097}[h%10]
 }
